@@ -200,6 +200,28 @@ Proof.
     apply K; [assumption | lia].
 Qed.
 
+(* ---------- the requantisation scale of a QUANTIZE compiled as a 1x1 pool (fused_quantize) ---------- *)
+Lemma fused_quantize_eq_reference_lemma ifm ofm :
+  0 < dm ifm -> 0 < dm ofm ->
+  let v := fused_quantize_scale 53 ifm ofm in
+  fst v <> 0 -> snd v <= 62 -> same_value v (tfl_requantize_params ifm ofm) 0.
+Proof.
+  intros H1 Ho v Hv Hs. subst v. unfold fused_quantize_scale, tfl_requantize_params, q_scale_dy in *.
+  set (X := fl_div 53 ifm ofm) in *.
+  assert (0 < dm X) by (apply fl_div_pos; [lia | assumption | assumption]).
+  destruct X as [mx ex]. cbn [dm de] in *.
+  pose proof (q_scale_vs_tfl mx ex 0 H) as K. cbv zeta in K. rewrite Z.add_0_r in K.
+  apply K; [assumption | lia].
+Qed.
+
+(* forming the quotient of the two float32 scales in float32 before widening is not the reference:
+   float32 scales 0x1.230e26p-5 and 0x1.5e3bc2p-3 *)
+Lemma fused_quantize_float32_quotient_refuted_lemma :
+  exists ifm ofm, 0 < dm ifm /\ 0 < dm ofm /\
+    fused_quantize_scale 53 ifm ofm = (1784628124, 33) /\ tfl_requantize_params ifm ofm = (1784628124, -2) /\
+    fused_quantize_scale 24 ifm ofm = (1784628096, 33).
+Proof. exists (Dy 9537299 (-28)), (Dy 11476449 (-26)). vm_compute. repeat split; reflexivity. Qed.
+
 (* ---------- which tensor each programmed add/sub scale reaches ---------- *)
 (* for both operand orders the 32-bit pair reaches the IFM exactly when the IFM has the smaller scale *)
 Lemma ew_operand_choice_lemma ifm ifm2 rev :
